@@ -18,6 +18,7 @@ import (
 //   C08 str pm <n>      => <String()> <FromString(String())> <json round trip>
 //   C08 str pt <n>      => <String()> <FromString(String())> -
 //   C08 str tsparse|pmparse|ptparse|ips <string> => <parsed value>
+//   C08 str p2s|s2p ... (peers.go)
 
 func runStr(out *common.Out, kind, arg string) {
 	res := "panic"
@@ -70,6 +71,10 @@ func runStr(out *common.Out, kind, arg string) {
 		case "ips":
 			s, _ := wire.ParseStrTok(arg)
 			res = strconv.Itoa(int(api.IPFSPinStatusFromString(s)))
+		case "p2s":
+			res = runP2S(arg)
+		case "s2p":
+			res = runS2P(arg)
 		default:
 			res = "unknown-kind"
 		}
@@ -85,7 +90,9 @@ var modeWords = []string{"recursive", "direct", "", "Direct", "indirect"}
 var ipsWords = []string{"direct", "recursive", "indirect", "indirect through QmXYZ", "recursive-ish", "", "Direct", "unpinned", "directx"}
 
 func genStr(out *common.Out, r *common.Rng, k int) {
-	switch x := r.Intn(20); {
+	switch x := r.Intn(23); {
+	case x >= 20: // api/util.go: PeersToStrings / StringsToPeers
+		genPeersCase(out, r)
 	case x < 9:
 		runStr(out, "ts", strconv.Itoa(int(wire.GenTrackerStatus(r))))
 	case x < 10: // exhaustive-ish sweep over all filters of known statuses and a little beyond
